@@ -23,6 +23,7 @@ WGNext ==
     \/ HandleError /\ whist' = Append(whist, <<"handle", Last(handled')>>)
     \/ lp = "waiting" /\ timer = "pending" /\ Shutdown /\ whist' = Append(whist, <<"shutdown">>)
     \/ \E o \in RefOutcomes : FinalRefresh(o) /\ whist' = Append(whist, RefEv(Last(refs'), Len(refs')))
+    \/ WindowTick /\ whist' = Append(whist, <<"tick">>)     \* offered by the driver during the final refresh; never enabled
     \/ ShutdownReturn /\ whist' = Append(whist, <<"ret", result'>>)
     \/ sp = "returned" /\ SeeDone /\ UNCHANGED whist
 WGSpec == WGInit /\ [][WGNext]_wgvars
